@@ -95,3 +95,12 @@ package outbox
 //@ func (*outboxStorage).startStorageOutboxHeartbeat
 //@ property C21
 //@ trusted
+
+// C07 through the outbox: a conditional write (If-Match / If-None-Match put, complete, delete; append) reaches the inner
+// storage - which evaluates the condition - only after every queued write to that key was replayed, so the condition
+// is judged against all writes acknowledged before.
+//@ methods os *outboxStorage of storage.Storage in PutObject CompleteMultipartUpload DeleteObject AppendObject
+//@ mode effects
+//@ effect[C07:conditional-write-judged-after-queued-writes] every os.innerStorage.$M(_, storage.BucketName($b), storage.ObjectKey($k), __) if $M == "PutObject" || $M == "CompleteMultipartUpload" || $M == "DeleteObject" || $M == "AppendObject"
+//@     needs before os.waitForAllOutboxEntriesOfBucketAndKeyIncludingGlobal(_, $wb, $wk) -> ($e)
+//@     where $e == nil && $wb == $b && $wk == $k
